@@ -77,30 +77,102 @@ UNITS["GetStringBits"] = dict(
     must_fire=["simd8x64-load", "simd8x64-eq", "getescaped-inst"],
     callmacro="#define GetStringBits(d, pi, pe) (GetStringBits)(d, &(pi), &(pe))")
 
-_GNT_LOOPS = {
-    0: """__CPROVER_assigns(pos)
+SCAN_REQ = """__CPROVER_requires(len <= MAXLEN && __CPROVER_is_fresh(data, len))
+__CPROVER_requires(__CPROVER_rw_ok(pos__r, sizeof(size_t)) && *pos__r <= len)
+__CPROVER_requires(GHOSTS_OF(data, len))"""
+
+_GNT_INV = """__CPROVER_assigns(pos)
 __CPROVER_loop_invariant(__CPROVER_loop_entry(pos) <= pos && pos <= len)
-__CPROVER_loop_invariant(!(__CPROVER_loop_entry(pos) <= ghost_k && ghost_k < pos) || !SPEC_IS_TOKEN(data[ghost_k]))
-__CPROVER_decreases(len - pos)""",
-    2: """__CPROVER_assigns(pos)
-__CPROVER_loop_invariant(__CPROVER_loop_entry(pos) <= pos && pos <= len)
-__CPROVER_loop_invariant(!(__CPROVER_loop_entry(pos) <= ghost_k && ghost_k < pos) || !SPEC_IS_TOKEN(data[ghost_k]))
-__CPROVER_decreases(len - pos)""",
-}
+__CPROVER_loop_invariant(!(__CPROVER_loop_entry(pos) <= ghost_k && ghost_k < pos) || !SPEC_IS_TOKEN(ghost_vk, tokens, N))
+__CPROVER_decreases(len - pos)"""
 for n in (3, 4):
     UNITS["GetNextToken_%d" % n] = dict(
         file=SK, anchor=r"sonic_force_inline uint8_t GetNextToken\(", cname="GetNextToken_%d" % n,
-        tparams={"N": str(n)}, rules=SIMD_RULES, nloops=4, loops=_GNT_LOOPS,
-        must_fire=["vec-load", "vecbool-splat", "vec-or-assign", "vec-var-bitmask"])
+        tparams={"N": str(n)}, rules=SIMD_RULES, nloops=4, loops={0: _GNT_INV, 2: _GNT_INV},
+        must_fire=["vec-load", "vecbool-splat", "vec-or-assign", "vec-var-bitmask"],
+        contract=SCAN_REQ + """
+__CPROVER_requires(__CPROVER_is_fresh(tokens, N) && tokens[0] > 0 && tokens[1] > 0 && (N == 3 || tokens[2] > 0))
+__CPROVER_assigns(*pos__r)
+/* C11: stays inside the input; position monotone */
+__CPROVER_ensures(*pos__r >= __CPROVER_old(*pos__r) && *pos__r <= len)
+/* found: pos' is the index of the token byte that is returned; not found: 0 and pos' == len */
+__CPROVER_ensures(__CPROVER_return_value == 0 || (*pos__r < len && data[*pos__r] == __CPROVER_return_value && SPEC_IS_TOKEN(__CPROVER_return_value, tokens, N)))
+__CPROVER_ensures(__CPROVER_return_value != 0 || *pos__r == len)
+/* functional: no token byte was skipped (ghost index) */
+__CPROVER_ensures(!(__CPROVER_old(*pos__r) <= ghost_k && ghost_k < *pos__r) || !SPEC_IS_TOKEN(ghost_vk, tokens, N))
+""")
+
+UNITS["SkipString"] = dict(
+    file=SK, anchor=r"sonic_force_inline int SkipString\(", rules=SIMD_RULES, nloops=2,
+    must_fire=["vec-load", "vec-cmp", "vec-call-bitmask", "getescaped-inst", "local-const-static"],
+    callmacro="#define SkipString(d, p, l) (SkipString)(d, &(p), l)",
+    loops={
+        0: """__CPROVER_assigns(pos, bs_bits, quote_bits, escaped, prev_escaped, found)
+__CPROVER_loop_invariant(__CPROVER_loop_entry(pos) <= pos && pos <= len && prev_escaped <= 1)
+__CPROVER_decreases(len - pos)""",
+        1: """__CPROVER_assigns(pos, found)
+__CPROVER_loop_invariant(__CPROVER_loop_entry(pos) <= pos && pos <= len + 1)
+__CPROVER_decreases(len + 1 - pos)""",
+    },
+    contract=SCAN_REQ + """
+__CPROVER_assigns(*pos__r)
+__CPROVER_ensures(__CPROVER_return_value == 0 || __CPROVER_return_value == 1 || __CPROVER_return_value == 2)
+/* C11: on success pos' is one past a quote inside the input; on failure at most one past the end */
+__CPROVER_ensures(*pos__r >= __CPROVER_old(*pos__r))
+__CPROVER_ensures(__CPROVER_return_value == 0 || (*pos__r > __CPROVER_old(*pos__r) && *pos__r <= len && data[*pos__r - 1] == '"'))
+__CPROVER_ensures(__CPROVER_return_value != 0 || *pos__r <= len + 1)
+""")
+
+_SC_INNER = ("""__CPROVER_assigns(rbrace, rbrace_num, lbrace_num, pos)
+__CPROVER_loop_invariant(pos == __CPROVER_loop_entry(pos))
+__CPROVER_loop_invariant(rbrace_num >= __CPROVER_loop_entry(rbrace_num) && rbrace_num - __CPROVER_loop_entry(rbrace_num) <= 64)
+__CPROVER_loop_invariant(rbrace_num - __CPROVER_loop_entry(rbrace_num) == 64 ? rbrace == 0 : (rbrace & ((1ULL << (rbrace_num - __CPROVER_loop_entry(rbrace_num))) - 1)) == 0)
+__CPROVER_loop_invariant((rbrace & ~__CPROVER_loop_entry(rbrace)) == 0)
+__CPROVER_loop_invariant(rbrace_num <= lbrace_num)
+__CPROVER_loop_invariant(rbrace == 0 || lbrace_num <= last_lbrace_num + __builtin_popcountll((rbrace - 1) & lbrace))
+__CPROVER_decreases(rbrace)""", True)
+UNITS["SkipContainer"] = dict(
+    file=SK, anchor=r"sonic_force_inline bool SkipContainer\(", rules=SIMD_RULES, nloops=3,
+    must_fire=["simd8x64-load", "simd8x64-eq"],
+    callmacro="#define SkipContainer(d, p, l, lb, rb) (SkipContainer)(d, &(p), l, lb, rb)",
+    loops={
+        0: """__CPROVER_assigns(pos, p, prev_instring, prev_escaped, instring, rbrace_num, lbrace_num, last_lbrace_num)
+__CPROVER_loop_invariant(__CPROVER_loop_entry(pos) <= pos && pos <= len)
+__CPROVER_loop_invariant(0 <= rbrace_num && rbrace_num <= pos && rbrace_num <= lbrace_num)
+__CPROVER_decreases(len - pos)""",
+        2: _SC_INNER,
+    },
+    contract=SCAN_REQ.replace("len <= MAXLEN", "len <= MAXLEN - 64") + """
+__CPROVER_requires((left == '[' && right == ']') || (left == '{' && right == '}'))
+__CPROVER_assigns(*pos__r)
+/* C11: position monotone and never beyond the input, closed or not */
+__CPROVER_ensures(*pos__r >= __CPROVER_old(*pos__r) && *pos__r <= len)
+__CPROVER_ensures(!__CPROVER_return_value || (*pos__r > __CPROVER_old(*pos__r) && data[*pos__r - 1] == right))
+""")
+
+SC = A + "common/skip_common.h"
+UNITS["EqBytes4"] = dict(file=SC, anchor=r"static sonic_force_inline bool EqBytes4\(",
+                         rules=[("static-assert", r"static_assert\([^;]*;", "")])
+UNITS["SkipLiteral"] = dict(
+    # `start + 4 <= end` forms a pointer up to 3 bytes past one-past-the-end; it is compared, never dereferenced
+    check_disable=["pointer", "pointer-overflow"],
+    file=SC, anchor=r"sonic_force_inline bool SkipLiteral\(", autos={"start": "const uint8_t *", "end": "const uint8_t *"},
+    callmacro="#define SkipLiteral(d, p, l, t) (SkipLiteral)(d, &(p), l, t)",
+    contract="""__CPROVER_requires(len <= MAXLEN && __CPROVER_is_fresh(data, len))
+__CPROVER_requires(__CPROVER_rw_ok(pos__r, sizeof(size_t)) && *pos__r >= 1 && *pos__r <= len)
+__CPROVER_assigns(*pos__r)
+__CPROVER_ensures(*pos__r >= __CPROVER_old(*pos__r) && *pos__r <= len)
+__CPROVER_ensures(!__CPROVER_return_value || *pos__r == __CPROVER_old(*pos__r) + (token == 'f' ? 4 : 3))
+""")
 
 UNITS["skip_space_safe"] = dict(
     file=SK, anchor=r"sonic_force_inline uint8_t skip_space_safe\(", nloops=2,
     callmacro="#define skip_space_safe(d, p, l, e, b) (skip_space_safe)(d, &(p), l, &(e), &(b))",
     contract="""
 __CPROVER_requires(len <= MAXLEN && __CPROVER_is_fresh(data, len))
-__CPROVER_requires(__CPROVER_is_fresh(pos__r, sizeof(size_t)) && *pos__r <= len)
-__CPROVER_requires(__CPROVER_is_fresh(nonspace_bits_end__r, sizeof(size_t)))
-__CPROVER_requires(__CPROVER_is_fresh(nonspace_bits__r, sizeof(uint64_t)))
+__CPROVER_requires(__CPROVER_rw_ok(pos__r, sizeof(size_t)) && *pos__r <= len)
+__CPROVER_requires(__CPROVER_rw_ok(nonspace_bits_end__r, sizeof(size_t)))
+__CPROVER_requires(__CPROVER_rw_ok(nonspace_bits__r, sizeof(uint64_t)))
 __CPROVER_requires(GHOSTS_OF(data, len))
 __CPROVER_requires(WF_CACHE(*pos__r, len, *nonspace_bits_end__r))
 __CPROVER_requires(CACHE_AGREES_AT(*nonspace_bits_end__r, *nonspace_bits__r, ghost_k, ghost_vk))
@@ -108,7 +180,8 @@ __CPROVER_requires(CACHE_AGREES_AT(*nonspace_bits_end__r, *nonspace_bits__r, gho
 __CPROVER_assigns(*pos__r, *nonspace_bits_end__r, *nonspace_bits__r)
 /* C11: stays inside the input, position is monotone and never passes len */
 __CPROVER_ensures(*pos__r >= __CPROVER_old(*pos__r) && *pos__r <= len)
-__CPROVER_ensures(__CPROVER_old(*pos__r) >= len || (*pos__r > __CPROVER_old(*pos__r) && __CPROVER_return_value == data[*pos__r - 1]))
+__CPROVER_ensures(__CPROVER_old(*pos__r) >= len || *pos__r > __CPROVER_old(*pos__r))
+__CPROVER_ensures(*pos__r == 0 ? __CPROVER_return_value == ' ' : __CPROVER_return_value == data[*pos__r - 1])
 /* scanner state stays well-formed and the cached bitmap keeps describing the buffer */
 __CPROVER_ensures(WF_CACHE(*pos__r, len, *nonspace_bits_end__r))
 __CPROVER_ensures(CACHE_AGREES_AT(*nonspace_bits_end__r, *nonspace_bits__r, ghost_k, ghost_vk))
@@ -134,3 +207,45 @@ for arch in ("avx2", "sse"):
         file=A + arch + "/unicode.h", anchor=r"sonic_force_inline uint64_t GetNonSpaceBits\(", rules=SIMD_RULES,
         autos={"whitespace_table": "m256"} if arch == "avx2" else {},
         must_fire=(["simd8x64-load", "simd8x64-eqv", "repeat16", "simd8x64-chunk"] if arch == "avx2" else []))
+
+# ------------------------------------------------------------------ simd_skip.h: forwarders and SkipScanner members
+SS = A + "simd_skip.h"
+UNITS["SkipArray"] = dict(file=SS, anchor=r"static bool SkipArray\(", callmacro="#define SkipArray(d, p, l) (SkipArray)(d, &(p), l)")
+UNITS["SkipObject"] = dict(file=SS, anchor=r"static bool SkipObject\(", callmacro="#define SkipObject(d, p, l) (SkipObject)(d, &(p), l)")
+UNITS["SkipNumber"] = dict(file=SS, anchor=r"static uint8_t SkipNumber\(", callmacro="#define SkipNumber(d, p, l) (SkipNumber)(d, &(p), l)")
+_SCN = dict(self="SkipScanner", fields=["nonspace_bits_end_", "nonspace_bits_"])
+SCANNER_REQ = """__CPROVER_requires(len <= MAXLEN - 64 && __CPROVER_is_fresh(data, len))
+__CPROVER_requires(__CPROVER_rw_ok(pos__r, sizeof(size_t)) && *pos__r <= len)
+__CPROVER_requires(__CPROVER_rw_ok(self, sizeof(SkipScanner)))
+__CPROVER_requires(GHOSTS_OF(data, len))
+__CPROVER_requires(WF_SCANNER_V(self->nonspace_bits_end_, self->nonspace_bits_, *pos__r, len))"""
+UNITS["SkipScanner.SkipSpaceSafe"] = dict(
+    file=SS, anchor=r"sonic_force_inline uint8_t SkipSpaceSafe\(", cname="SkipScanner_SkipSpaceSafe",
+    callmacro="#define SkipSpaceSafe(d, p, l) (SkipScanner_SkipSpaceSafe)(self, d, &(p), l)", **_SCN)
+UNITS["SkipScanner.GetArrayElem"] = dict(
+    file=SS, anchor=r"sonic_force_inline SonicError GetArrayElem\(", cname="SkipScanner_GetArrayElem", nloops=1,
+    callmacro="#define GetArrayElem(d, p, l, i) (SkipScanner_GetArrayElem)(self, d, &(p), l, i)",
+    loops={0: """__CPROVER_assigns(index, pos, nonspace_bits_end_, nonspace_bits_)
+__CPROVER_loop_invariant(__CPROVER_loop_entry(pos) <= pos && pos <= len && WF_SCANNER_V(nonspace_bits_end_, nonspace_bits_, pos, len))
+__CPROVER_loop_invariant(index >= 0 && index <= __CPROVER_loop_entry(index))
+__CPROVER_decreases(index)"""},
+    contract=SCANNER_REQ + """
+__CPROVER_assigns(*pos__r, self->nonspace_bits_end_, self->nonspace_bits_)
+__CPROVER_ensures(*pos__r >= __CPROVER_old(*pos__r) && *pos__r <= len + 1 && WF_SCANNER_V(self->nonspace_bits_end_, self->nonspace_bits_, *pos__r, len))
+__CPROVER_ensures(__CPROVER_return_value != kErrorNone || *pos__r <= len)
+__CPROVER_ensures(__CPROVER_return_value == kErrorNone || __CPROVER_return_value == kParseErrorInvalidChar || __CPROVER_return_value == kParseErrorArrIndexOutOfRange)
+""", **_SCN)
+UNITS["SkipScanner.SkipOne"] = dict(
+    file=SS, anchor=r"sonic_force_inline long SkipOne\(", cname="SkipScanner_SkipOne",
+    callmacro="#define SkipOne(d, p, l) (SkipScanner_SkipOne)(self, d, &(p), l)",
+    contract=SCANNER_REQ + """
+__CPROVER_assigns(*pos__r, self->nonspace_bits_end_, self->nonspace_bits_)
+/* C11: a non-negative result is the start of a slice [start, pos') inside the input */
+__CPROVER_ensures(*pos__r >= __CPROVER_old(*pos__r) && *pos__r <= len + 1 && WF_SCANNER_V(self->nonspace_bits_end_, self->nonspace_bits_, *pos__r, len))
+__CPROVER_ensures(__CPROVER_return_value < 0 || ((size_t)__CPROVER_return_value < *pos__r && *pos__r <= len))
+__CPROVER_ensures(__CPROVER_return_value >= 0 || __CPROVER_return_value == -(long)kParseErrorInvalidChar)
+""", **_SCN)
+
+UNITS["SkipScanner.fields"] = dict(
+    file=SS, anchor=r"size_t nonspace_bits_end_\{0\};", kind="span", end=r"uint64_t nonspace_bits_\{0\};",
+    rules=[("brace-init", r"\{0\};", ";")], must_fire=["brace-init"])
